@@ -170,6 +170,9 @@ func c03CmdCase(r *Rand) string {
 	default:
 		delim = Pick(r, []string{"\x00", "\x00", "\x00", ",", "::", "\t"})
 		sortName = Pick(r, []string{"text", "text", "value", "value:asc", "VALUE:rev", "Text", "VALUE", "Value:desc", "vAlUe:ASC", "TEXT:asc"})
+		if name == "spark" && r.Chance(1, 3) { // spark's default column order and the reversed ones: the trim keeps the last --cols of THAT order
+			sortName = Pick(r, []string{"numeric", "numeric", "NUMERIC:desc", "text:desc", "Text:REV", "numeric:rev", "numeric:asc"})
+		}
 		if name == "spark" && r.Chance(1, 6) {
 			flags |= 2
 		}
@@ -203,6 +206,8 @@ func c03CmdCase(r *Rand) string {
 		// keys of a table must not contain the delimiter by accident more often than wanted
 		if r.Chance(1, 2) {
 			keys = []string{"a", "b", "c", "d", "e"}[:r.Range(1, 5)]
+		} else if name == "spark" && strings.HasPrefix(strings.ToLower(sortName), "numeric") {
+			keys = []string{"10", "9", "1e2", "-1", "1.0", "1", "x"}[:r.Range(2, 7)]
 		}
 	}
 	samples := make([]string, ns)
@@ -279,6 +284,9 @@ func c03CmdStats(f []string, st map[string]int) {
 	if sn := string(UnHex(f[7])); f[1] == "spark" && sn != strings.ToLower(sn) && strings.HasPrefix(strings.ToLower(sn), "value") {
 		st["cmd.spark.valueUpperCase"]++
 	}
+	if sn := strings.ToLower(string(UnHex(f[7]))); f[1] == "spark" && (strings.HasPrefix(sn, "numeric") || strings.HasPrefix(sn, "text:desc") || strings.HasPrefix(sn, "text:rev")) {
+		st["cmd.spark.numericOrReversedCols"]++
+	}
 	flags, _ := strconv.Atoi(f[3])
 	if flags&1 != 0 {
 		st["cmd.histo.all"]++
@@ -311,6 +319,11 @@ var c03CmdCorpus = []string{
 	"cmd spark 1,1,1,0 0 20 0 2 56414c5545 00 0 610072003131;6200720035;630072;6300720036",
 	"cmd spark 2,2,1,1 0 20 0 2 56616c75653a64657363 00 0 610072003131;6200720035|630072;6300720036",
 	"cmd spark 1,1,1,0 0 20 0 1 54455854 00 0 610072;620072",
+	// spark --sort-cols numeric (the default) --cols 1 keeps column 10 (9 < 10); text keeps 9; numeric:desc keeps 9; text:desc keeps 10
+	"cmd spark 2,1,1,0 0 20 0 1 6e756d65726963 00 0 31300072;3900720035|31300072",
+	"cmd spark 1,1,1,0 0 20 0 1 74657874 00 0 31300072;3900720035|31300072",
+	"cmd spark 1,2,1,1 0 20 0 1 6e756d657269633a64657363 00 0 31300072;3900720035|31300072",
+	"cmd spark 3,1,2,0 0 20 0 1 746578743a64657363 00 0 31300072;3900720035|31300072",
 	// histo --sort numeric: 9 < 10 < 1e400 (+Inf) ahead of text; 1 / 1.0 / 1e0 tie in value and come out by text
 	"cmd histo 2,1,1,0 0 20 0 0 6e756d65726963 00 0 3130;39;616263;312e30;31;316530;6e616e;3165343030;2d33",
 	"cmd histo 1,1,1,0 1 3 0 0 4e554d455249433a64657363 00 0 3130;39;616263;312e30;31",
